@@ -7,7 +7,7 @@ from hypothesis import strategies as st
 from hypothesis.stateful import initialize, precondition, rule
 
 from .. import gens
-from ..api import MachinePart, Part, Res, V
+from ..api import PLOT_KINDS, MachinePart, Part, Res, V, plot_quietly
 from ..machine import TracedMachine
 
 PROPERTY_ID = "C20"
@@ -262,6 +262,7 @@ class ResultHistory(TracedMachine):
         self.canon = None
         self.ncopies = 0
         self.nreads = 0
+        self.nplots = 0
         self.kind = None
 
     @initialize(kind=st.sampled_from(KINDS), seed=st.integers(0, 10 ** 6))
@@ -325,6 +326,22 @@ class ResultHistory(TracedMachine):
         check_measurement(self.pool[i % len(self.pool)], which, [u], v)
         self.viol.extend(v)
 
+    @precondition(lambda self: self.pool)
+    @rule(i=st.integers(0, 7), which=st.sampled_from(PLOT_KINDS), errors=st.booleans(), sigma=st.sampled_from([1, 2, 3, 0.5]),
+          dB=st.booleans(), deg=st.booleans())
+    def draw_plot(self, i, which, errors, sigma, dB, deg):
+        self.step("draw_plot", i=i, which=which, errors=errors, sigma=sigma, dB=dB, deg=deg)
+
+    def do_draw_plot(self, i, which, errors, sigma, dB, deg):
+        """drawing a result is one more way of reading it: every attribute keeps its value afterwards"""
+        obj = self.pool[i % len(self.pool)]
+        plot_quietly(obj, which, errors=errors, sigma=sigma, dB=dB, deg=deg)
+        self.nplots += 1
+        for name in ALL_NAMES:
+            if not same(getattr(obj, name), self.canon[name]):
+                self.flag("value_changed_by_plot", q=name, which=str(which), errors=errors, sigma=sigma, kind=self.kind)
+                return
+
     def check(self):
         # every object of the pool still exposes the raw fields unchanged
         if self.canon is None:
@@ -335,7 +352,7 @@ class ResultHistory(TracedMachine):
                     self.flag("raw_field_changed", q=name, obj=k)
 
     def summary(self):
-        return (self.ncopies >= 1 and self.nreads >= 3), ["machine:" + str(self.kind), "copies>=1" if self.ncopies else "copies=0"]
+        return (self.ncopies >= 1 and self.nreads >= 3), ["machine:" + str(self.kind), "copies>=1" if self.ncopies else "copies=0"] + (["plots>=1"] if self.nplots else [])
 
 
 PARTS = [
